@@ -240,6 +240,7 @@ func GenErrTable(p *load.Program, out string) error {
 	c := &Ctx{P: p, graphs: map[ast.Node]*cfgx.Graph{}}
 	computeAliases(p)
 	fieldCanon = p.FieldName
+	fieldOwnerCanon = p.FieldOwner
 	tab := map[string]int{}
 	for _, pkg := range ErrTablePackages {
 		for _, fi := range p.FuncsIn(pkg) {
